@@ -5,29 +5,103 @@ From Synnax Require Import Common.Base Generated.Consts_C14 Freighter.Stream Mon
 Import ListNotations.
 Local Open Scope N_scope.
 
+(* the generated tables agree with what the monitor pins *)
+Lemma parents_pinned : parents = kind_parents.
+Proof. reflexivity. Qed.
+Lemma registered_pinned :
+  forallb (fun k => existsb (N.eqb k) reg_kinds) (map fst enc_rules) = true /\
+  forallb (fun k => existsb (N.eqb k) (map fst enc_rules)) reg_kinds = true.
+Proof. vm_compute. auto. Qed.
+
+Lemma isa_tab_refl ps k : isa_tab ps k k = true.
+Proof. unfold isa_tab. destruct (List.length ps); simpl; rewrite N.eqb_refl; reflexivity. Qed.
 Lemma isa_refl k : isa k k = true.
-Proof. unfold isa. destruct (List.length parents); simpl; rewrite N.eqb_refl; reflexivity. Qed.
+Proof. apply isa_tab_refl. Qed.
+Lemma misa_refl k : misa k k = true.
+Proof. apply isa_tab_refl. Qed.
 
 (* if k is-a s then k = s or s is the parent of something *)
-Lemma isa_fuel_cases fuel : forall k s,
-  isa_fuel fuel k s = true -> k = s \/ In s (map snd parents).
+Lemma isa_fuel_cases ps fuel : forall k s,
+  isa_fuel ps fuel k s = true -> k = s \/ In s (map snd ps).
 Proof.
   induction fuel as [|f IH]; intros k s H; cbn [isa_fuel] in H.
   - destruct (k =? s) eqn:E; [|discriminate]. left. apply N.eqb_eq. auto.
   - destruct (k =? s) eqn:E0; [left; apply N.eqb_eq; auto|]. cbn [orb] in H.
-    destruct (find (fun p => fst p =? k) parents) as [[k' q]|] eqn:E; [|discriminate].
+    destruct (find (fun p => fst p =? k) ps) as [[k' q]|] eqn:E; [|discriminate].
     apply find_some in E as [Hin _].
     destruct (IH _ _ H) as [->|Hs]; auto.
     right. apply in_map_iff. exists (k', s). auto.
 Qed.
 
 Lemma isa_leaf k s : ~ In s (map snd parents) -> isa k s = true -> k = s.
-Proof. intros Hn H. destruct (isa_fuel_cases _ _ _ H); tauto. Qed.
+Proof. intros Hn H. destruct (isa_fuel_cases _ _ _ _ H); tauto. Qed.
 
 Lemma canceled_leaf : ~ In cCanceled (map snd parents).
 Proof. vm_compute. intuition discriminate. Qed.
 Lemma eof_leaf : ~ In cEOF (map snd parents).
 Proof. vm_compute. intuition discriminate. Qed.
+
+(* a kind without a Wrap parent is only itself *)
+Lemma find_none_notin (ps : list (N * N)) k :
+  ~ In k (map fst ps) -> find (fun p => fst p =? k) ps = None.
+Proof.
+  induction ps as [|[a b] ps IH]; simpl; intros H; auto.
+  destruct (a =? k) eqn:E; [apply N.eqb_eq in E; subst; tauto|]. apply IH. tauto.
+Qed.
+Lemma isa_orphan k s : ~ In k (map fst parents) -> isa k s = (k =? s).
+Proof.
+  intros H. unfold isa, isa_tab. destruct (List.length parents); cbn [isa_fuel].
+  - apply orb_false_r.
+  - rewrite (find_none_notin _ _ H). apply orb_false_r.
+Qed.
+
+(* the encode rules pick exactly the registered kind the monitor computes: the first matching
+   rule is the nearest registered sentinel on the Wrap chain *)
+Definition dom : list N := map fst kind_parents ++ reg_kinds.
+Definition agree_at (k : N) : bool :=
+  match enc_rule k, reg_anc k with
+  | Some (s, _), Some s' => s =? s'
+  | None, None => true
+  | _, _ => false
+  end.
+Lemma agree_dom : forallb agree_at dom = true.
+Proof. vm_compute. reflexivity. Qed.
+
+Lemma agree k : agree_at k = true.
+Proof.
+  destruct (in_dec N.eq_dec k dom) as [Hin|Hout].
+  - pose proof agree_dom as A. rewrite forallb_forall in A. auto.
+  - unfold dom in Hout. rewrite in_app_iff in Hout.
+    assert (Hp : ~ In k (map fst parents)) by (rewrite parents_pinned; tauto).
+    assert (Hr : ~ In k reg_kinds) by tauto.
+    unfold agree_at.
+    assert (E1 : enc_rule k = None).
+    { unfold enc_rule. destruct (find (fun r => isa k (fst r)) enc_rules) as [r|] eqn:E; auto.
+      apply find_some in E as [Hin Hisa]. rewrite (isa_orphan _ _ Hp) in Hisa.
+      apply N.eqb_eq in Hisa. exfalso. apply Hr.
+      destruct registered_pinned as [R _]. rewrite forallb_forall in R.
+      assert (In k (map fst enc_rules)) by (subst k; apply in_map; auto).
+      specialize (R _ H). apply existsb_exists in R as (x & Hx & Hk). apply N.eqb_eq in Hk.
+      subst. auto. }
+    assert (E2 : reg_anc k = None).
+    { unfold reg_anc. cbn [List.length kind_parents reg_anc_fuel].
+      assert (existsb (N.eqb k) reg_kinds = false) as ->.
+      { destruct (existsb (N.eqb k) reg_kinds) eqn:E; auto.
+        apply existsb_exists in E as (x & Hx & Hk). apply N.eqb_eq in Hk. subst. tauto. }
+      rewrite parents_pinned in Hp. rewrite (find_none_notin _ _ Hp). reflexivity. }
+    rewrite E1, E2. reflexivity.
+Qed.
+
+Lemma enc_reg k s ty : enc_rule k = Some (s, ty) -> reg_anc k = Some s.
+Proof.
+  intros H. pose proof (agree k) as A. unfold agree_at in A. rewrite H in A.
+  destruct (reg_anc k); [|discriminate]. apply N.eqb_eq in A. subst. reflexivity.
+Qed.
+Lemma enc_none_reg k : enc_rule k = None -> reg_anc k = None.
+Proof.
+  intros H. pose proof (agree k) as A. unfold agree_at in A. rewrite H in A.
+  destruct (reg_anc k); [discriminate|reflexivity].
+Qed.
 
 (* ---- facts about the generated tables, by evaluation *)
 
@@ -91,13 +165,16 @@ Proof.
   - (* PathError *)
     unfold decode. cbn [p_ty p_inner]. rewrite path_type_ok.
     change (cPath =? cPath) with true. cbn [i_cls i_inner fst snd]. simpl.
-    unfold base_ty. destruct (enc_rule (e_kind e)) as [[s ty]|] eqn:Er; [|reflexivity].
+    unfold base_ty. destruct (enc_rule (e_kind e)) as [[s ty]|] eqn:Er.
+    2:{ rewrite (enc_none_reg _ Er). reflexivity. }
+    rewrite (enc_reg _ _ _ Er).
     destruct (enc_rule_dec _ _ _ Er) as (Hd & H0 & H1 & _).
-    rewrite Hd. destruct s; [congruence|]. apply isa_refl.
+    rewrite Hd. destruct s; [congruence|]. apply misa_refl.
   - destruct (enc_rule (e_kind e)) as [[s ty]|] eqn:Er.
     + destruct (enc_rule_dec _ _ _ Er) as (Hd & H0 & H1 & _).
-      rewrite (decode_not_zero_path s); auto. simpl. apply isa_refl.
-    + destruct internal.
+      rewrite (enc_reg _ _ _ Er).
+      rewrite (decode_not_zero_path s); auto. simpl. apply misa_refl.
+    + rewrite (enc_none_reg _ Er). destruct internal.
       * unfold decode. cbn [p_ty p_roach]. rewrite roach_type_ok.
         unfold roach_cls. destruct (e_kind e =? cDeadline); reflexivity.
       * unfold decode. cbn [p_ty p_roach]. rewrite unknown_type_ok. reflexivity.
@@ -119,11 +196,11 @@ Proof.
   - destruct (negb (e_path e) && isa (e_kind e) cCanceled) eqn:Hc; [|apply decode_encode].
     apply andb_prop in Hc as [Hp Hi]. apply negb_true_iff in Hp.
     apply (isa_leaf _ _ canceled_leaf) in Hi.
-    unfold img_matches, matches. rewrite Hp, Hi, canceled_unregistered. reflexivity.
+    unfold img_matches, matches. rewrite Hp, Hi. reflexivity.
   - destruct (negb (e_path e) && isa (e_kind e) cEOF) eqn:Hc.
     + apply andb_prop in Hc as [Hp Hi]. apply negb_true_iff in Hp.
       apply (isa_leaf _ _ eof_leaf) in Hi.
-      unfold img_matches, matches. rewrite Hp, Hi, eof_rule. reflexivity.
+      unfold img_matches, matches. rewrite Hp, Hi. reflexivity.
     + unfold transit. simpl. apply decode_encode.
 Qed.
 
